@@ -8,8 +8,8 @@ def check(tier, seed, only=None):
         # length field of the padding == 8*total for ALL total < 2^61, every residue (full functional contract)
         ("hash_pad", "leaf", "all", "all"),
         # total_length == old total (0 at FIRST) + len as 64-bit values; byte->block conversions; layout invariant
-        ("submit", "tape", "reference_loose", "per_param"),
-        ("resubmit", "tape", "reference_loose", "per_param"),
+        ("submit", "tape", "reference_loose", "reference"),
+        ("resubmit", "tape", "reference_loose", "reference"),
     ], only, extra=p_ctx_common.base_jobs(tier, ("update", "final", "submit")))
     rep.default_replays()
     rep.assumptions.append(
